@@ -7,6 +7,7 @@
 //! trusted: env (signer): InMemorySigner / ChannelTransactionParameters / ChannelPublicKeys are field skeletons of the real structs; DelayedPaymentKey::from_basepoint, get_revokeable_redeemscript, SighashCache::p2wsh_signature_hash and sign_with_aux_rand are external_body with uninterpreted results (delayed_key_of, revokeable_script, sighash_of, ecdsa_sign); R8: `hash_to_message!(&X.unwrap()[..])` (a macro over Message::from_digest_slice) is written `hash_to_message!(X.unwrap().as_digest())` and the unit defines the macro as the function to_message (the message is the sighash); the message of `assert!(c, "msg")` is dropped by the extractor (the assertion stays as an obligation); R4: module prefixes chan_utils:: / sighash:: stripped; R17: the parameters the contract names are bound by position (a parameter renamed in the source is alpha-renamed back); the trait methods are verified as inherent methods of InMemorySigner; sign_justice_revoked_htlc: HtlcKey::from_basepoint and get_htlc_redeemscript_with_explicit_keys external_body (uninterpreted derived_key / htlc_script)
 //! assume: the signer's revocation_base_key is the secret of the holder_pubkeys.revocation_basepoint in the channel parameters it is given (how channel keys are set up)
 //! trusted: assume_specification for core::cmp::max / core::cmp::min (std definitions): present in every unit so that a change that introduces them is verified instead of being rejected by the tool
+//! trusted: R15 (deep slice): ChannelMonitorImpl::check_spend_counterparty_htlc: the test applied to each input of a confirmed revoked HTLC transaction and the justice package built for it, verbatim as a function of (index, input); RevokedOutput::build / PackageTemplate::build_package record their arguments; bitcoin types are skeletons (a witness is its element count); the watch list is dropped and not claimed; R3: log statement removed
 use vstd::prelude::*;
 macro_rules! hash_to_message { ($slice: expr) => { to_message($slice) } }
 verus! {
@@ -234,6 +235,55 @@ impl InMemorySigner {
 //@with
     &holder_htlcpubkey, &counterparty_htlcpubkey,
 //@end
+}
+
+// ---- check_spend_counterparty_htlc: justice on the outputs of a revoked counterparty HTLC transaction -----------------
+pub mod revoked_htlc_tx {
+use vstd::prelude::*;
+#[derive(Clone, Copy)] pub struct Txid(pub u64);
+impl vstd::std_specs::cmp::PartialEqSpecImpl for Txid { open spec fn obeys_eq_spec() -> bool { true } open spec fn eq_spec(&self, other: &Txid) -> bool { self.0 == other.0 } }
+impl PartialEq for Txid { fn eq(&self, o: &Txid) -> (r: bool) { self.0 == o.0 } }
+#[derive(Clone, Copy)] pub struct PublicKey(pub u64);
+#[derive(Clone, Copy)] pub struct SecretKey(pub u64);
+#[derive(Clone, Copy)] pub struct Amount(pub u64);
+#[derive(Clone, Copy)] pub struct ChannelTransactionParameters { pub id: u64 }
+pub struct OutPoint { pub txid: Txid, pub vout: u32 }
+pub struct Witness { pub n: usize }
+impl Witness { #[verifier::external_body] pub fn len(&self) -> (r: usize) ensures r == self.n { unimplemented!() } }
+pub struct TxIn { pub previous_output: OutPoint, pub witness: Witness }
+#[derive(Clone, Copy)] pub struct TxOut { pub value: Amount, pub script: u64 }
+pub struct Transaction { pub input: Vec<TxIn>, pub output: Vec<TxOut> }
+pub struct RevokedOutput { pub point: PublicKey, pub key: SecretKey, pub amount: Amount, pub params: ChannelTransactionParameters, pub height: u32 }
+impl RevokedOutput { pub fn build(point: PublicKey, key: SecretKey, amount: Amount, params: ChannelTransactionParameters, height: u32) -> (r: Self)
+    ensures r == (RevokedOutput { point, key, amount, params, height }) { RevokedOutput { point, key, amount, params, height } } }
+pub enum PackageSolvingData { RevokedOutput(RevokedOutput), Other(u8) }
+pub struct PackageTemplate { pub txid: Txid, pub vout: u32, pub data: PackageSolvingData, pub counterparty_spendable_height: u32 }
+impl PackageTemplate { pub fn build_package(txid: Txid, vout: u32, data: PackageSolvingData, counterparty_spendable_height: u32) -> (r: Self)
+    ensures r == (PackageTemplate { txid, vout, data, counterparty_spendable_height }) { PackageTemplate { txid, vout, data, counterparty_spendable_height } } }
+pub struct CounterpartyParams { pub on_counterparty_tx_csv: u16 }
+pub struct Funding { pub channel_parameters: ChannelTransactionParameters }
+pub struct ChannelMonitorImpl { pub counterparty_commitment_params: CounterpartyParams, pub funding: Funding }
+impl ChannelMonitorImpl {
+//@extract lightning/src/chain/channelmonitor.rs :: impl ChannelMonitorImpl :: fn check_spend_counterparty_htlc
+//@slice R15
+    for (idx, input) in tx.input.iter().enumerate() { if $c:cond { $body:straight claimable_outpoints.push(justice_package);
+//@with
+    fn justice_for_revoked_htlc_tx_input(&self, tx: &Transaction, idx: usize, input: &TxIn, commitment_txid: &Txid, htlc_txid: Txid, per_commitment_point: PublicKey, per_commitment_key: SecretKey, height: u32, claimable_outpoints: &mut Vec<PackageTemplate>) {
+        if $c { $body claimable_outpoints.push(justice_package); }
+    }
+//@requires
+    old(claimable_outpoints)@.len() == 0, idx < 0x1_0000_0000, height < 0xffff_0000,
+//@ensures P C06 every-input-of-a-revoked-counterparty-htlc-transaction-that-spends-the-revoked-commitment-gets-a-justice-claim-on-the-output-of-the-same-index-with-that-outputs-value
+    (input.previous_output.txid.0 == commitment_txid.0 && input.witness.n == 5 && idx < tx.output@.len()) ==>
+        final(claimable_outpoints)@ =~= seq![PackageTemplate { txid: htlc_txid, vout: idx as u32, counterparty_spendable_height: (height + self.counterparty_commitment_params.on_counterparty_tx_csv as u32) as u32,
+            data: PackageSolvingData::RevokedOutput(RevokedOutput { point: per_commitment_point, key: per_commitment_key, amount: tx.output@[idx as int].value, params: self.funding.channel_parameters, height }) }],
+    !(input.previous_output.txid.0 == commitment_txid.0 && input.witness.n == 5 && idx < tx.output@.len()) ==> final(claimable_outpoints)@.len() == 0,
+//@mutant justice_claims_the_first_output_for_every_input
+    per_commitment_point, per_commitment_key, tx.output[idx].value,
+//@with
+    per_commitment_point, per_commitment_key, tx.output[0].value,
+//@end
+}
 }
 }
 fn main() {}
